@@ -8,6 +8,8 @@ import time
 
 from . import core
 
+DRIFT_FACTOR = 6   # quick-tier sample multiplier when a file the property is anchored in has changed
+
 
 def first_diff(a, b, width=160):
     """The part of a around the first position where it differs from b."""
@@ -230,8 +232,14 @@ class Runner:
             sorted({x for a in assum for x in a["axioms"]}) or "none"))
         # -- ties
         results = []
+        self.drift = core.anchor_drift(self.pid)
+        if self.drift:
+            self.log("anchored source differs from the baseline (%s): correspondence sample x%d" % (
+                ", ".join(self.drift)[:300], DRIFT_FACTOR))
         for tie in ties:
             n = tie["n_thorough"] if self.tier == "thorough" else tie["n_quick"]
+            if self.drift and self.tier != "thorough":
+                n = min(n * DRIFT_FACTOR, max(n, tie["n_thorough"]))
             res = self.run_tie(tie, n, self.seed)
             results.append(res)
             self.log("tie %s: %d cases, %d distinct non-trivial, %d mismatches, %d oracle failures, %d known (%.1fs)%s" % (
@@ -353,6 +361,7 @@ class Runner:
                       "distribution": dict(sorted(r.stats.items())), "error": r.error} for r in results],
             "broken": broken,
             "coqchk": getattr(self, "coqchk", None),
+            "anchored_source_changed": getattr(self, "drift", []),
             "exhaustive": bool(spec.get("exhaustive", False)),
         }
         doc = {
